@@ -250,6 +250,23 @@ def cd_is_none(ex: "Expander", n: ast.Name) -> bool:
     return comp_defs(n) is None
 
 
+def refers_to_call(fn: Func, e: ast.expr, calls, depth: int = 3) -> bool:
+    """Is the value of `e` (one of) the given Call nodes - directly, as a sub-expression, or
+    through local names assigned from them?  Identity-based (no text comparison)."""
+    ids = {id(c) for c in calls}
+    for x in walk_expr(e):
+        if id(x) in ids:
+            return True
+    if depth <= 0:
+        return False
+    for x in walk_expr(e):
+        if isinstance(x, ast.Name) and isinstance(x.ctx, ast.Load) and comp_defs(x) is None:
+            for d in scope_of(fn).get(x.id):
+                if d.kind in ("assign", "walrus") and d.value is not None and refers_to_call(fn, d.value, calls, depth - 1):
+                    return True
+    return False
+
+
 def expand(prog: Program, fn: Func, e: ast.expr, **kw) -> List[ast.expr]:
     return Expander(prog, fn, **kw).expand(e)
 
